@@ -42,6 +42,10 @@ ApplyT(lines, tr) ==
 TokAt(run, i) == LET s == SelectSeq(run.toks, LAMBDA t : t.line = i) IN IF s = <<>> THEN <<>> ELSE <<s[1]>>
 StructuralTypes == {"FeatureLine", "RuleLine", "BackgroundLine", "ScenarioLine", "ExamplesLine", "StepLine", "TagLine", "TableRow", "DocStringSeparator"}
 IsStructural(run, i) == TokAt(run, i) # <<>> /\ TokAt(run, i)[1].type \in StructuralTypes
+\* a line that was REPORTED as unexpected but is, by its own kind, a keyword / step / tag / row / delimiter line
+StructuralKinds == {"#FeatureLine", "#RuleLine", "#BackgroundLine", "#ScenarioLine", "#ExamplesLine", "#StepLine", "#TagLine", "#TableRow", "#DocStringSeparator"}
+IsRejectedStructural(lines, run, i) == /\ TokAt(run, i) = <<>> /\ i <= Len(run.sts) /\ i <= Len(lines)
+                                       /\ KindOf(lines[i], run.sts[i].ms) \in StructuralKinds
 \* an OPENING delimiter: no doc string is open before the line
 IsOpening(run, i) == TokAt(run, i) # <<>> /\ TokAt(run, i)[1].type = "DocStringSeparator" /\ run.sts[i].ms.sep = <<>>
 IsClosing(run, i) == TokAt(run, i) # <<>> /\ TokAt(run, i)[1].type = "DocStringSeparator" /\ run.sts[i].ms.sep # <<>>
@@ -54,7 +58,7 @@ NoCrOutsideCrLf(lines) == \A j \in 1..Len(lines) : \A k \in 1..Len(lines[j]) : l
 Admissible(lines, run, tr) ==
    CASE tr.t = "crlf"    -> \A j \in 1..Len(lines) : \A k \in 1..Len(lines[j]) : lines[j][k] # CR
      [] tr.t = "noeol"   -> lines # <<>> /\ HasLf(lines[Len(lines)])
-     [] tr.t = "trail"   -> tr.i \in 1..Len(lines) /\ IsStructural(run, tr.i)
+     [] tr.t = "trail"   -> tr.i \in 1..Len(lines) /\ (IsStructural(run, tr.i) \/ IsRejectedStructural(lines, run, tr.i))
      [] tr.t = "indent"  -> /\ tr.i \in 1..Len(lines) /\ IsStructural(run, tr.i) /\ ~IsClosing(run, tr.i)
                             /\ (IF IsOpening(run, tr.i) THEN ClosingOf(run, lines, tr.i + 1) = tr.i + tr.k ELSE tr.k = 0)
      [] tr.t = "blank"   -> tr.i \in 1..Len(lines) /\ BlankIsEmpty(run, tr.i)
